@@ -12,7 +12,7 @@ var confirmedCounts = map[string]map[string][2]int{ // rule -> prop -> {default,
 	"R3":  {"C11": {24, 24}},
 	"R4":  {"C03": {11, 11}, "C11": {11, 11}},
 	"R5":  {"C11": {9, 11}},
-	"R6":  {"C04": {9, 9}, "C16": {0, 30}, "C17": {26, 26}, "C18": {17, 42}, "C19": {17, 72}, "C20": {9, 9}},
+	"R6":  {"C04": {9, 9}, "C16": {0, 30}, "C17": {34, 34}, "C18": {25, 50}, "C19": {25, 80}, "C20": {9, 9}},
 	"R7":  {"C17": {26, 29}, "C19": {22, 38}},
 	"R8":  {"C18": {19, 23}},
 	"R9":  {"C20": {15, 15}},
